@@ -7,7 +7,10 @@
 //   igris/datastruct/argvc.h       argvc_internal_split, argvc_internal_split_n
 //   igris/shell/mshell.c, rshell.c the four dispatchers
 //   igris/util/pathops.h           path_next, path_iterate, path_compare_node, path_remove_prefix
-//   igris/creader.h                creader_readline
+//   igris/creader.h                creader_readline, creader_skip, creader_skipws
+//   extension (round 3, see run_op2/gen2): path_is_abs/is_simple/is_double_dot/last_node, path_next(path,NULL),
+//   argvc_length_of_first, igris::buffer ==/!= and constructors, dstring (string.cpp via C19_dstr.cpp, util/dstring.h,
+//   util/dstring.c), mshell/rshell help routines, rshell_execute_v with the caller's argv
 //
 // Every buffer handed to the code is an exactly sized heap allocation (also
 // the empty one: a pointer one past a 1-byte block), C strings are text+NUL in
@@ -22,6 +25,7 @@
 #include <igris/util/string.h>
 #include <igris/util/pathops.h>
 #include <igris/creader.h>
+#include <igris/util/dstring.h>
 extern "C"
 {
 #include <igris/shell/mshell.h>
@@ -31,6 +35,8 @@ extern "C"
 using namespace hv;
 typedef std::string str;
 typedef std::vector<std::string> toks;
+std::string c19_dstring_cpp(const void *data, size_t size);
+std::string c19_dstring_cpp_str(const std::string &s);
 
 static_assert(sizeof(void *) == 8, "LP64");
 static_assert((char)0x80 < 0, "char is signed");
@@ -497,8 +503,450 @@ static void run_rsh(bool multi, const std::vector<std::string> &w, out &o)
     if (g_called >= 0 && drop[g_called / 4]) o.tag("sh-dropargs");
 }
 
+
+// ================================================================ extension
+// help tables: "_" = empty table, else entries "name[:help]" (hex or "-")
+struct hentry
+{
+    str name;
+    bool has_help;
+    str help;
+};
+static std::vector<hentry> help_table(const std::string &w)
+{
+    std::vector<hentry> r;
+    if (w == "_")
+        return r;
+    size_t i = 0;
+    while (true)
+    {
+        size_t j = w.find(',', i);
+        std::string e = w.substr(i, j == str::npos ? j : j - i);
+        size_t c = e.find(':');
+        hentry h;
+        h.name = U(e.substr(0, c));
+        h.has_help = c != str::npos;
+        if (h.has_help)
+            h.help = U(e.substr(c + 1));
+        r.push_back(h);
+        if (j == str::npos)
+            break;
+        i = j + 1;
+    }
+    return r;
+}
+static str ref_help(const std::vector<hentry> &t)
+{
+    str r;
+    for (auto &e : t)
+    {
+        r += e.name;
+        if (e.has_help)
+            r += " - " + e.help;
+        r += "\r\n";
+    }
+    return r;
+}
+static toks g_pieces;
+static void *g_priv;
+static void help_write(void *priv, const char *p, size_t n)
+{
+    g_priv = priv;
+    g_pieces.push_back(str(p, n));
+}
+static int dummy_m(int, char **) { return 0; }
+static int dummy_r(int, char **, char *, int) { return 0; }
+
+// reference decoder of the dstring notation (independent of igris and of the model)
+static bool ref_undstring(const str &e, str &out)
+{
+    out.clear();
+    for (size_t i = 0; i < e.size(); i++)
+    {
+        unsigned char c = (unsigned char)e[i];
+        if (c < 0x20 || c > 0x7e)
+            return false; // the notation is printable ASCII only
+        if (c != '\\')
+        {
+            out.push_back((char)c);
+            continue;
+        }
+        if (i + 1 >= e.size())
+            return false;
+        char k = e[++i];
+        if (k == 'n') out.push_back('\n');
+        else if (k == 't') out.push_back('\t');
+        else if (k == '\\') out.push_back('\\');
+        else if (k == 'x')
+        {
+            if (i + 2 >= e.size())
+                return false;
+            int h = hexval(e[i + 1]), l = hexval(e[i + 2]);
+            if (h < 0 || l < 0)
+                return false;
+            out.push_back((char)(h * 16 + l));
+            i += 2;
+        }
+        else
+            return false;
+    }
+    return true;
+}
+
+template <size_t N> static size_t ctor_size(bool is_const, const str &a)
+{
+    char *m = (char *)malloc(N); // exactly sized
+    memcpy(m, a.data(), N);
+    size_t r = is_const ? igris::buffer(*(const char(*)[N])m).size() : igris::buffer(*(char(*)[N])m).size();
+    free(m);
+    return r;
+}
+
+static bool run_op2(const std::vector<std::string> &w, out &o)
+{
+    const std::string &op = w[0];
+    if (op == "pabs" || op == "psimple" || op == "pdd")
+    {
+        str text = U(w[1]), p = upto_nul(text);
+        xbuf b(cz(text));
+        int r = op == "pabs" ? path_is_abs(b.p) : op == "psimple" ? path_is_simple(b.p) : path_is_double_dot(b.p);
+        o.result = r ? "1" : "0";
+        bool want = op == "pabs" ? (!p.empty() && p[0] == '/') : op == "psimple" ? p.find('/') == str::npos : p.substr(0, p.find('/')) == "..";
+        if ((r != 0) != want)
+            o.fail(op + " " + o.result + " != " + (want ? "1" : "0"));
+        if (r != 0 && r != 1)
+            o.fail(op + " returns something else than 0/1");
+        if (p.empty()) o.tag("path-empty");
+        o.tag(r ? (op + "-yes").c_str() : (op + "-no").c_str());
+        if (op == "pdd" && !p.empty() && p[0] == '.' && !r) o.tag("pdd-dot-but-not-dotdot");
+        return true;
+    }
+    if (op == "plast" || op == "plastu")
+    {
+        // plast: judged by the routine's own separator ('\\');
+        // plastu: judged by the separator of every other helper of pathops.h ('/')
+        str text = U(w[1]), p = upto_nul(text);
+        xbuf b(cz(text));
+        const char *r = path_last_node(b.p);
+        o.result = std::to_string(r - b.p);
+        char sep = op == "plast" ? '\\' : '/';
+        size_t k = p.rfind(sep);
+        size_t want = k == str::npos ? 0 : k + 1;
+        if (r < b.p || r > b.p + p.size())
+            o.fail("path_last_node points outside the path");
+        else if ((size_t)(r - b.p) != want)
+            o.fail("path_last_node " + o.result + " != offset behind the last '" + str(1, sep) + "' " + std::to_string(want));
+        if (p.empty()) o.tag("path-empty");
+        else if (k == str::npos) o.tag("plast-no-separator");
+        else if (k + 1 == p.size()) o.tag("plast-trailing-separator");
+        else if (k == 0) o.tag("plast-separator-first");
+        else o.tag("plast-inner");
+        return true;
+    }
+    if (op == "pnext0")
+    {
+        str text = U(w[1]), p = upto_nul(text);
+        xbuf b(cz(text));
+        const char *r = path_next(b.p, NULL);
+        o.result = r ? std::to_string(r - b.p) : "null";
+        size_t wp = first_real(p, 0);
+        str want = wp == p.size() ? "null" : std::to_string(wp);
+        if (o.result != want)
+            o.fail("path_next(path, NULL) " + o.result + " != first real component " + want);
+        o.tag(r ? "pnext0-found" : "pnext0-null");
+        return true;
+    }
+    if (op == "lenfirst")
+    {
+        str text = U(w[1]), p = upto_nul(text);
+        xbuf b(cz(text));
+        ptrdiff_t r = argvc_length_of_first(b.p);
+        o.result = std::to_string(r);
+        size_t k = p.find(' ');
+        if ((size_t)r != (k == str::npos ? p.size() : k))
+            o.fail("argvc_length_of_first != length of the run in front of the first space");
+        o.tag(k == str::npos ? "lenfirst-to-end" : k == 0 ? "lenfirst-zero" : "lenfirst-word");
+        return true;
+    }
+    if (op == "cskip" || op == "cskipws")
+    {
+        str s = U(w[1]), sy = op == "cskip" ? U(w[2]) : str("\t\n\r ");
+        xbuf b(s), z(cz(sy));
+        struct creader rd;
+        creader_init(&rd, b.p, b.n);
+        int n = op == "cskip" ? creader_skip(&rd, z.p) : creader_skipws(&rd);
+        o.result = std::to_string(n) + " " + std::to_string(creader_curpos(&rd));
+        str set = upto_nul(sy);
+        size_t k = set.empty() ? 0 : s.find_first_not_of(set);
+        if (k == str::npos)
+            k = s.size();
+        if (set.empty())
+            k = 0;
+        if ((size_t)n != k || creader_curpos(&rd) != k)
+            o.fail("creader_skip " + o.result + " != length of the leading run of the symbols " + std::to_string(k));
+        if (rd.cursor != rd.fini && set.find(*rd.cursor) != str::npos)
+            o.fail("creader_skip stops in front of a symbol");
+        if (s.empty()) o.tag("cskip-empty");
+        else if (k == s.size()) o.tag("cskip-to-end");
+        else if (k == 0) o.tag("cskip-nothing");
+        else o.tag("cskip-some");
+        if (set.empty()) o.tag("cskip-no-symbols");
+        if (k < s.size() && s[k] == 0) o.tag("cskip-stops-at-nul");
+        return true;
+    }
+    if (op == "beq")
+    {
+        str a = U(w[1]), b = U(w[2]);
+        xbuf xa(a), xb(b);
+        const igris::buffer ba = xa.buf(), bb = xb.buf();
+        bool eq = ba == bb, ne = ba != bb;
+        o.result = str(eq ? "1" : "0") + " " + (ne ? "1" : "0");
+        if (eq != (a == b))
+            o.fail(str("buffer == is ") + (eq ? "true" : "false") + " for " + (a == b ? "equal" : "different") + " contents");
+        if (ne == eq)
+            o.fail("buffer != is not the negation of ==");
+        if (a.size() != b.size()) o.tag("beq-size-differs");
+        else if (a.empty()) o.tag("beq-both-empty");
+        else if (a == b) o.tag("beq-equal");
+        else if (upto_nul(a) == upto_nul(b) && upto_nul(a).size() < a.size()) o.tag("beq-differ-behind-nul");
+        else o.tag("beq-differ");
+        return true;
+    }
+    if (op == "beqz")
+    {
+        str a = U(w[1]), t = U(w[2]), z = upto_nul(t);
+        xbuf xa(a), xz(cz(t));
+        igris::buffer ba = xa.buf();
+        bool eq = ba == (const char *)xz.p, ne = ba != (const char *)xz.p;
+        o.result = str(eq ? "1" : "0") + " " + (ne ? "1" : "0");
+        if (eq != (a == z))
+            o.fail(str("buffer == const char* is ") + (eq ? "true" : "false") + " for " + (a == z ? "equal" : "different") + " contents");
+        if (ne == eq)
+            o.fail("buffer != const char* is not the negation of ==");
+        if (a == z) o.tag("beqz-equal");
+        else if (z.size() > a.size() && z.compare(0, a.size(), a) == 0) o.tag("beqz-buffer-is-proper-prefix");
+        else if (a.find('\0') != str::npos) o.tag("beqz-nul-in-buffer");
+        else o.tag("beqz-differ");
+        return true;
+    }
+    if (op == "bufctor")
+    {
+        // which constructor takes an array: const char[N] -> buffer(const char*),
+        // char[N] -> the array template (size N).  Correspondence only.
+        bool c = w[1] == "c";
+        str a = U(w[2]);
+        size_t r = 0;
+        switch (a.size())
+        {
+        case 1: r = ctor_size<1>(c, a); break;
+        case 2: r = ctor_size<2>(c, a); break;
+        case 3: r = ctor_size<3>(c, a); break;
+        case 4: r = ctor_size<4>(c, a); break;
+        case 5: r = ctor_size<5>(c, a); break;
+        case 6: r = ctor_size<6>(c, a); break;
+        default: o.result = "bad-op"; return true;
+        }
+        o.result = std::to_string(r);
+        if (igris::buffer("abc").size() != 3)
+            o.fail("buffer(\"abc\").size() != 3");
+        o.tag(c ? "bufctor-const-array" : "bufctor-mutable-array");
+        if (!c && r != upto_nul(a).size()) o.tag("bufctor-counts-behind-text");
+        return true;
+    }
+    if (op == "dstr")
+    {
+        str s = U(w[1]);
+        xbuf b(s);
+        str got = c19_dstring_cpp(b.p, b.n);                 // string.cpp
+        str got_h = igris::dstring((const void *)b.p, b.n);  // util/dstring.h
+        str got_s = c19_dstring_cpp_str(s);
+        str got_b = igris::dstring(b.buf());
+        o.result = H(got);
+        if (got_h != got || got_s != got || got_b != got)
+            o.fail("the dstring overloads of string.cpp and util/dstring.h disagree");
+        // reference size: exactly the bytes bytes_to_dstring may write
+        {
+            xbuf ob(got.size() + 1, 0xA5);
+            int n = bytes_to_dstring(ob.p, b.p, b.n);
+            if (n != (int)got.size() || ob.get() != cz(got))
+                o.fail("bytes_to_dstring disagrees with dstring");
+        }
+        str back;
+        if (!ref_undstring(got, back))
+            o.fail("dstring output " + H(got) + " is not in the notation (printable ASCII, \\n \\t \\\\ \\xHH)");
+        else if (back != s)
+            o.fail("dstring output " + H(got) + " reads back as " + H(back) + ", not as the input (notation ambiguous)");
+        if (s.empty()) o.tag("dstr-empty");
+        if (s.find('\\') != str::npos) o.tag("dstr-backslash");
+        if (s.find('\n') != str::npos || s.find('\t') != str::npos) o.tag("dstr-nl-tab");
+        for (unsigned char c : s)
+            if (c >= 0x80) { o.tag("dstr-high-byte"); break; }
+        for (unsigned char c : s)
+            if (c < 0x20 && c != '\n' && c != '\t') { o.tag("dstr-control"); break; }
+        if (s.find('\x7f') != str::npos) o.tag("dstr-del");
+        return true;
+    }
+    if (op == "mhelp" || op == "mhelpt")
+    {
+        std::vector<std::vector<hentry>> tables;
+        for (size_t i = 1; i < w.size(); i++)
+            tables.push_back(help_table(w[i]));
+        names_keeper nk;
+        std::vector<xbuf *> tb;
+        for (auto &t : tables)
+        {
+            xbuf *x = new xbuf((t.size() + 1) * sizeof(mshell_command), 0);
+            mshell_command *c = (mshell_command *)x->p;
+            for (size_t i = 0; i < t.size(); i++)
+            {
+                c[i].name = nk.add(t[i].name);
+                c[i].func = dummy_m;
+                c[i].help = t[i].has_help ? nk.add(t[i].help) : 0;
+            }
+            tb.push_back(x);
+        }
+        xbuf tp((tables.size() + 1) * sizeof(void *), 0);
+        for (size_t t = 0; t < tables.size(); t++)
+            ((const mshell_command **)tp.p)[t] = (const mshell_command *)tb[t]->p;
+        g_pieces.clear();
+        g_priv = 0;
+        int cookie;
+        if (op == "mhelp")
+            mshell_help((const mshell_command *)tb[0]->p, help_write, &cookie);
+        else
+            mshell_tables_help((const mshell_command *const *)tp.p, help_write, &cookie);
+        o.result = fmt_toks(g_pieces);
+        str all, want;
+        for (auto &p : g_pieces)
+            all += p;
+        for (auto &t : tables)
+            want += ref_help(t);
+        if (all != want)
+            o.fail("help text " + H(all) + " != " + H(want));
+        if (!g_pieces.empty() && g_priv != &cookie)
+            o.fail("privdata not passed to write");
+        for (auto x : tb)
+            delete x;
+        o.tag(want.empty() ? "help-empty" : "help-text");
+        return true;
+    }
+    if (op == "rhelp" || op == "rhelpt")
+    {
+        int ansmax = atoi(w[1].c_str());
+        std::vector<std::vector<hentry>> tables;
+        for (size_t i = 2; i < w.size(); i++)
+            tables.push_back(help_table(w[i]));
+        names_keeper nk;
+        std::vector<xbuf *> tb;
+        for (auto &t : tables)
+        {
+            xbuf *x = new xbuf((t.size() + 1) * sizeof(rshell_command), 0);
+            rshell_command *c = (rshell_command *)x->p;
+            for (size_t i = 0; i < t.size(); i++)
+            {
+                c[i].name = nk.add(t[i].name);
+                c[i].func = dummy_r;
+                c[i].help = t[i].has_help ? nk.add(t[i].help) : 0;
+            }
+            tb.push_back(x);
+        }
+        xbuf tp((tables.size() + 1) * sizeof(rshell_command_table), 0);
+        for (size_t t = 0; t < tables.size(); t++)
+            ((rshell_command_table *)tp.p)[t].table = (const rshell_command *)tb[t]->p;
+        size_t room = ansmax > 0 ? (size_t)ansmax : 0;
+        xbuf ans(room, 0xA5);
+        int len = op == "rhelp" ? rshell_help((const rshell_command *)tb[0]->p, ans.p, ansmax)
+                                : rshell_tables_help((const rshell_command_table *)tp.p, ans.p, ansmax);
+        str got = ans.get();
+        o.result = std::to_string(len) + " " + H(got);
+        str full;
+        for (auto &t : tables)
+            full += ref_help(t);
+        if (ansmax <= 0)
+        {
+            if (len != 0)
+                o.fail("no room at all but a length is returned");
+            o.tag("rhelp-no-room");
+        }
+        else
+        {
+            // NUL-terminated inside the buffer, a prefix of the full text, the
+            // returned length is its length, untouched behind the terminator
+            size_t z = got.find('\0');
+            if (z == str::npos)
+                o.fail("answer not terminated inside ansmax bytes");
+            else
+            {
+                str text = got.substr(0, z);
+                if (len != (int)z)
+                    o.fail("returned length " + std::to_string(len) + " != strlen(ans) " + std::to_string(z));
+                if (full.compare(0, text.size(), text) != 0)
+                    o.fail("answer " + H(text) + " is not a prefix of the help text " + H(full));
+                // rshell_help uses all the room; the tables variant keeps one more byte free
+                size_t must = std::min(full.size(), room - (op == "rhelp" ? 1 : std::min<size_t>(2, room)));
+                if (text.size() < must)
+                    o.fail("answer has " + std::to_string(text.size()) + " characters, " + std::to_string(must) + " fit");
+                if (got.substr(z + 1) != str(room - z - 1, (char)0xA5))
+                    o.fail("bytes behind the terminator were written");
+                if (text.size() == full.size()) o.tag(full.size() + 1 == room ? "rhelp-exact-fit" : "rhelp-fits");
+                else o.tag("rhelp-truncated");
+            }
+            if (ansmax == 1) o.tag("rhelp-one-byte");
+        }
+        for (auto x : tb)
+            delete x;
+        return true;
+    }
+    if (op == "rshv")
+    {
+        // rshv <dropargs> <names> <arg>...   (argc = number of args >= 1)
+        int drop = atoi(w[1].c_str());
+        toks names = list_arg(w[2]);
+        toks args;
+        for (size_t i = 3; i < w.size(); i++)
+            args.push_back(U(w[i]));
+        names_keeper nk;
+        xbuf tb((names.size() + 1) * sizeof(rshell_command), 0);
+        rshell_command *c = (rshell_command *)tb.p;
+        for (size_t i = 0; i < names.size(); i++)
+        {
+            c[i].name = nk.add(names[i]);
+            c[i].func = RH[i];
+            c[i].help = 0;
+        }
+        xbuf av(args.size() * sizeof(char *), 0);
+        for (size_t i = 0; i < args.size(); i++)
+            ((char **)av.p)[i] = (char *)nk.add(args[i]);
+        xbuf outb(7, 0);
+        g_called = -1;
+        g_argc = 0;
+        g_args.clear();
+        int ret = -777;
+        // the handler must not read argv[i] for i >= argc - drop: rec() reads argc entries
+        int rc = rshell_execute_v((int)args.size(), (char **)av.p, c, &ret, drop, outb.p, 7);
+        o.result = fmt_dispatch(rc, ret);
+        str want = "rc=" + std::to_string(ENOENT) + " ret=-777 call=none";
+        for (size_t i = 0; i < names.size(); i++)
+            if (names[i] == args[0])
+            {
+                want = "rc=0 ret=" + std::to_string(100 + i) + " call=" + std::to_string(i) + "/" + std::to_string((int)args.size() - drop);
+                for (size_t a = drop; a < args.size(); a++)
+                    want += ":" + H(args[a]);
+                break;
+            }
+        if (o.result != want)
+            o.fail("dispatch " + o.result + " != expected " + want);
+        o.tag(g_called >= 0 ? "rshv-hit" : "rshv-miss");
+        if (g_called >= 0 && drop) o.tag("rshv-dropargs");
+        return true;
+    }
+    return false;
+}
+
 static void run_op(const std::vector<std::string> &w, const std::string &, out &o)
 {
+    if (run_op2(w, o))
+        return;
     const std::string &op = w[0];
     if (op == "reset")
     {
@@ -905,6 +1353,174 @@ static void emit_unary(const str &s)
     P("pnext %s\npiter %s\n", h.c_str(), h.c_str());
 }
 
+
+// ---------------------------------------------------------------- gen (extension)
+static const char *F_BSL = "@F:C19-path-last-node-backslash ";
+static const char *F_EQZ = "@F:C19-buffer-eq-cstr-prefix ";
+static str entry_arg(const str &name, int help_kind, const str &help) // help_kind 0: NULL
+{
+    return H(name) + (help_kind ? ":" + H(help) : "");
+}
+static void emit_path2(const str &s)
+{
+    str h = H(s), p = upto_nul(s);
+    P("pabs %s\npsimple %s\npdd %s\nplast %s\npnext0 %s\n", h.c_str(), h.c_str(), h.c_str(), h.c_str(), h.c_str());
+    // the unix-separator reading of path_last_node: recorded finding
+    size_t a = p.rfind('\\'), b = p.rfind('/');
+    if ((a == str::npos ? 0 : a + 1) != (b == str::npos ? 0 : b + 1))
+        P("%splastu %s\n", F_BSL, h.c_str());
+}
+// strncmp(a, z, |a|) == 0 computed by hand: where it differs from equality the
+// comparison with a C string is a recorded finding (prefix / NUL in the buffer)
+static void emit_beqz(const str &a, const str &t)
+{
+    str z = upto_nul(t);
+    bool prefix_eq = true;
+    for (size_t i = 0; i < a.size(); i++)
+    {
+        char x = a[i], y = i < z.size() ? z[i] : 0;
+        if (x != y) { prefix_eq = false; break; }
+        if (x == 0) break;
+    }
+    P("%sbeqz %s %s\n", prefix_eq != (a == z) ? F_EQZ : "", H(a).c_str(), H(t).c_str());
+}
+static void gen2(rng &r, bool th)
+{
+    // paths: every string <= 5 over {a / . \ NUL 0x80}, length 6 (7) over {a / . \}
+    all_strings(str("a/.\\\0\x80", 6), 5, [&](const str &s) { emit_path2(s); });
+    all_strings(str("a/.\\", 4), th ? 7 : 6, [&](const str &s) { emit_path2(s); }, 6);
+    all_strings(str(" a\0\t", 4), th ? 6 : 5, [&](const str &s) { P("lenfirst %s\n", H(s).c_str()); });
+    // creader_skip: every buffer <= 5 (6) over {space tab a NUL 0x80} x symbol sets
+    {
+        const std::vector<str> SY = {"", " ", "\t\n\r ", "a ", "\x80", str(" \0a", 3), "\x80\t"};
+        all_strings(str(" \ta\0\x80", 5), th ? 6 : 5, [&](const str &s) {
+            for (auto &y : SY)
+                P("cskip %s %s\n", H(s).c_str(), H(y).c_str());
+            P("cskipws %s\n", H(s).c_str());
+        });
+        all_strings(str(" \t\n\ra", 5), 4, [&](const str &s) { P("cskipws %s\n", H(s).c_str()); });
+    }
+    // buffer ==: all pairs of strings <= 3 over {a b NUL 0x80}; with C strings <= 4 over {a b 0x80}
+    {
+        std::vector<str> as, zs;
+        all_strings(str("ab\0\x80", 4), 3, [&](const str &s) { as.push_back(s); });
+        all_strings(str("ab\x80", 3), 4, [&](const str &s) { zs.push_back(s); });
+        for (auto &a : as)
+            for (auto &b : as)
+                P("beq %s %s\n", H(a).c_str(), H(b).c_str());
+        for (auto &a : as)
+            for (auto &z : zs)
+                emit_beqz(a, z);
+        const char *arrs[] = {"00", "6100", "616200", "61006200", "6162630000", "610000000000", "616263646500"};
+        for (auto a : arrs)
+            P("bufctor c %s\nbufctor m %s\n", a, a);
+        P("bufctor m 61\nbufctor m 616263\nbufctor m 616263646566\n");
+    }
+    // dstring: every single byte, every string <= 3 over the critical alphabet
+    for (int c = 0; c < 256; c++)
+        P("dstr %02x\ndstr 61%02x\n", c, c);
+    all_strings(str("a\\\n\t\0\x80\xffnx~\x7f\x1f ", 13), 3, [&](const str &s) { P("dstr %s\n", H(s).c_str()); });
+    all_strings(str("\\nx0a", 5), th ? 6 : 5, [&](const str &s) { P("dstr %s\n", H(s).c_str()); }, 4);
+    // help: tables of <= 2 entries from a pool, every ansmax from -1 to the full length + 3
+    {
+        const std::vector<str> E = {entry_arg("a", 0, ""), entry_arg("ab", 1, "h"), entry_arg("", 1, ""), entry_arg("b", 1, ""), entry_arg("\x80", 1, "xy"),
+                                    entry_arg("help", 1, "this text")};
+        std::vector<str> T = {"_"};
+        std::vector<size_t> L = {0};
+        auto elen = [&](size_t i) { const size_t n[] = {3, 8, 5, 6, 8, 18}; return n[i]; };
+        for (size_t i = 0; i < E.size(); i++)
+        {
+            T.push_back(E[i]);
+            L.push_back(elen(i));
+        }
+        for (size_t i = 0; i < E.size(); i++)
+            for (size_t j = 0; j < E.size(); j++)
+            {
+                T.push_back(E[i] + "," + E[j]);
+                L.push_back(elen(i) + elen(j));
+            }
+        for (size_t t = 0; t < T.size(); t++)
+        {
+            P("mhelp %s\n", T[t].c_str());
+            for (int m = -1; m <= (int)L[t] + 3; m++)
+                P("rhelp %d %s\n", m, T[t].c_str());
+        }
+        P("mhelpt\nrhelpt 0\nrhelpt 1\nrhelpt 5\n");
+        for (size_t t = 0; t < T.size(); t += (th ? 1 : 3))
+            for (size_t u = 0; u < T.size(); u += (th ? 2 : 5))
+            {
+                P("mhelpt %s %s\n", T[t].c_str(), T[u].c_str());
+                for (int m = -1; m <= (int)(L[t] + L[u]) + 3; m++)
+                    P("rhelpt %d %s %s\n", m, T[t].c_str(), T[u].c_str());
+            }
+        for (int k = 0; k < (th ? 400 : 60); k++)
+        {
+            size_t a = r.below(T.size()), b = r.below(T.size()), c = r.below(T.size());
+            int m = (int)r.range(-1, (int)(L[a] + L[b] + L[c]) + 3);
+            P("rhelpt %d %s %s %s\nmhelpt %s %s %s\n", m, T[a].c_str(), T[b].c_str(), T[c].c_str(), T[a].c_str(), T[b].c_str(), T[c].c_str());
+        }
+    }
+    // rshell_execute_v with the caller's argv (strings may contain white space), argc 1..3
+    {
+        const std::vector<str> Wd = {"a", "b", "ab", "", "a b", "\x80"};
+        const std::vector<toks> tables = {{}, {"a"}, {"b", "a"}, {"ab", "a", "a"}, {"", "a b", "\x80"}};
+        for (int n = 1; n <= 3; n++)
+        {
+            std::vector<int> idx(n, 0);
+            while (true)
+            {
+                str line;
+                for (int i = 0; i < n; i++)
+                    line += " " + H(Wd[idx[i]]);
+                for (auto &t : tables)
+                    if (n < 3 || th || r.chance(25))
+                        P("rshv %d %s%s\n", (int)r.below(n + 2), names_arg(t).c_str(), line.c_str());
+                int k = n - 1;
+                while (k >= 0 && ++idx[k] == (int)Wd.size())
+                    idx[k--] = 0;
+                if (k < 0)
+                    break;
+            }
+        }
+    }
+    // command tables and lines with bytes >= 0x80 (strcmp compares unsigned char, the splitter char)
+    {
+        const std::vector<toks> tables = {{"\x80"}, {"a\xff", "\xff"}, {"a", "\x80" "a"}, {"\xff\x80", "\xff"}};
+        all_strings(str(" a\x80\xff", 4), th ? 4 : 3, [&](const str &s) {
+            for (auto &t : tables)
+            {
+                P("msh %s %s\nrsh %s %d %s\n", H(s).c_str(), names_arg(t).c_str(), H(s).c_str(), (int)r.below(2), names_arg(t).c_str());
+            }
+            P("msht %s %s %s\n", H(s).c_str(), names_arg(tables[1]).c_str(), names_arg(tables[0]).c_str());
+            P("rsht %s 0:%s 1:%s\n", H(s).c_str(), names_arg(tables[2]).c_str(), names_arg(tables[3]).c_str());
+        });
+    }
+    // random longer inputs
+    int N = th ? 3000 : 400;
+    const str WIDE = str(" a/.\\\"\0\n\r\t'bz\x80\xff\x7f\x01n", 18);
+    for (int i = 0; i < N; i++)
+    {
+        int len = (int)r.range(6, r.chance(10) ? 200 : 40);
+        str s = rnd_str(r, r.chance(50) ? str("ab/.\\") : WIDE, len);
+        if (r.chance(30)) s.back() = r.chance(50) ? '\\' : '/';
+        if (r.chance(15)) s[0] = r.chance(50) ? '\\' : '/';
+        if (r.chance(30)) s = (r.chance(50) ? ".." : ".") + s;
+        emit_path2(s);
+        str t = rnd_str(r, WIDE, len);
+        P("dstr %s\nlenfirst %s\n", H(t).c_str(), H(t).c_str());
+        str ws = rnd_str(r, " \t\n\r", (int)r.range(0, 6)) + rnd_str(r, WIDE, (int)r.range(0, 10));
+        P("cskipws %s\ncskip %s %s\n", H(ws).c_str(), H(ws).c_str(), H(rnd_str(r, " \t\n\ra\x80", (int)r.range(0, 4))).c_str());
+        // buffers: equal, differing in one byte, differing behind a NUL, prefix
+        str a = rnd_str(r, str("ab\0\x80", 4), (int)r.range(0, 24)), b = a;
+        if (!b.empty() && r.chance(60)) b[r.below(b.size())] ^= (char)(1 << r.below(8));
+        if (r.chance(15)) b += "a";
+        P("beq %s %s\n", H(a).c_str(), H(b).c_str());
+        str z = rnd_str(r, str("ab\x80", 3), (int)r.range(0, 12)), za = z.substr(0, r.below(z.size() + 1));
+        emit_beqz(r.chance(50) ? z : za, z);
+        emit_beqz(a, upto_nul(b));
+    }
+}
+
 static void gen(rng &r, const std::string &tier)
 {
     bool th = tier == "thorough";
@@ -1021,6 +1637,8 @@ static void gen(rng &r, const std::string &tier)
         // no table at all / three tables
         P("msht 61\nrsht 61\nmsht - \nmsht 61 - - 61\nrsht 61 0:- 1:- 0:61\n");
     }
+    // (2b) the routines added by the extension
+    gen2(r, th);
     // (3) random longer inputs, biased towards structure
     int N = th ? 4000 : 600;
     const str WIDE = str(" a/.\"\0\n\r\t'bz\x80\xff,", 15);
